@@ -27,6 +27,7 @@ type CoopReq struct {
 	B    int    `json:"b"`
 	C    int    `json:"c"`
 	Amt  int    `json:"amt"`
+	D    int    `json:"d,omitempty"` // dotx: 1 = spend two consecutive outputs
 	Prog []KOp  `json:"prog,omitempty"`
 }
 
@@ -91,6 +92,20 @@ func GenCoopPlan(rt *rapid.T, tier string) *CoopPlan {
 		pl.Reqs = []CoopReq{{Kind: "select", A: a, B: 2, Amt: rapid.IntRange(0, 20).Draw(rt, "duelamt")},
 			{Kind: "select", A: a, B: rapid.SampledFrom([]int{2, 0}).Draw(rt, "duelb"), Amt: rapid.IntRange(0, 20).Draw(rt, "duelamt2")}}
 		maxAt = 150
+	}
+	// partial overlap (one plan in six, drawn last): one submission spends one output, another the
+	// same output together with a neighbour - the refused one has taken part of its locks when it
+	// meets the contended one; what it took must be free again once it has returned (follow-ups)
+	if rapid.IntRange(0, 5).Draw(rt, "overlap") == 5 {
+		a, b := rapid.IntRange(0, 2).Draw(rt, "ova"), rapid.IntRange(0, 3).Draw(rt, "ovb")
+		first := rapid.IntRange(0, 1).Draw(rt, "ovfirst")
+		one := CoopReq{Kind: "dotx", A: a, B: b + first, C: 0, Amt: rapid.IntRange(0, 20).Draw(rt, "ovamt")}
+		two := CoopReq{Kind: "dotx", A: a, B: b, C: 1, D: 1, Amt: rapid.IntRange(0, 20).Draw(rt, "ovamt2")}
+		pl.Reqs = []CoopReq{one, two}
+		if rapid.Bool().Draw(rt, "ovswap") {
+			pl.Reqs = []CoopReq{two, one}
+		}
+		maxAt = 250
 	}
 	np := rapid.IntRange(0, 4).Draw(rt, "npre")
 	for i := 0; i < np; i++ {
@@ -203,7 +218,7 @@ func ExecCoop(plan *CoopPlan, rc *RunCtx) *Violation {
 		p := &preparedReq{req: rq}
 		switch rq.Kind {
 		case "dotx":
-			st := &CStep{Op: "tx", A: rq.A, B: rq.B, C: rq.C, Amt: rq.Amt, D: 0}
+			st := &CStep{Op: "tx", A: rq.A, B: rq.B, C: rq.C, Amt: rq.Amt, D: rq.D}
 			p.tx = r.buildTx(n0, st)
 		case "kvtx":
 			st := &CStep{Op: "kvtx", A: rq.A, B: rq.B, C: rq.C, Amt: rq.Amt, Prog: rq.Prog}
@@ -384,6 +399,7 @@ func ExecCoop(plan *CoopPlan, rc *RunCtx) *Violation {
 		}
 	}
 	var closest string
+	var followViol *Violation
 	found := false
 	permute(perm, 0, func(order []int) bool {
 		ref, err := r.w.NodeOnDisk("serial", 0, pre.Clone())
@@ -458,8 +474,23 @@ func ExecCoop(plan *CoopPlan, rc *RunCtx) *Violation {
 			return true
 		}
 		found = true
+		// Nothing is in flight any more, so nothing may still be locked: every output a request of the
+		// batch named as an input and that is still unspent is now spent by its owner in a transaction
+		// of its own, on the node and on the serial reference; both must answer alike.
+		for _, fu := range r.followUps(n0, prep) {
+			a, b := n0.Chain.SubmitTx(n0.BaseCtx(), CloneTx(fu)) == nil, ref.Chain.SubmitTx(ref.BaseCtx(), CloneTx(fu)) == nil
+			rc.RunBG()
+			rc.St.Probes["follow-up-submitted"]++
+			if a != b {
+				followViol = r.viol("request-effect-outlives-request", "after the concurrent requests %v finished with outcomes %v (explained by order %v), a transaction spending the still unspent output %s alone is admitted=%v on the node but admitted=%v on the one-at-a-time reference; trace %s", reqKinds(prep), outcomes, order, hx(fu.TxInputs[0].RefTxid), a, b, coop.Trace())
+				break
+			}
+		}
 		return false
 	})
+	if followViol != nil {
+		return followViol
+	}
 	if !found {
 		return r.viol("not-serialisable", "requests %v finished with outcomes %v; no one-at-a-time order of the same requests on an identical node gives that result (%s); trace %s", reqKinds(prep), outcomes, closest, coop.Trace())
 	}
@@ -541,4 +572,43 @@ func lockConflict(a, b *lpb.Transaction) bool {
 		}
 	}
 	return false
+}
+
+// followUps builds, for every output named as an input by a transaction of the batch and still
+// listed as unspent and unfrozen on n, a transaction in which its owner spends just that output.
+func (r *chainRun) followUps(n *Node, prep []*preparedReq) []*lpb.Transaction {
+	var out []*lpb.Transaction
+	done := map[string]bool{}
+	h := n.L.GetMeta().TrunkHeight
+	for _, p := range prep {
+		if p.tx == nil {
+			continue
+		}
+		for _, in := range p.tx.TxInputs {
+			k := utxoKey(in.FromAddr, in.RefTxid, in.RefOffset)
+			if done[k] {
+				continue
+			}
+			done[k] = true
+			var owner *Acct
+			for _, a := range Accts {
+				if a.Addr == string(in.FromAddr) {
+					owner = a
+				}
+			}
+			if owner == nil {
+				continue
+			}
+			us, _ := n.ListUtxos(owner.Addr)
+			for _, u := range us {
+				if utxoKey([]byte(u.Addr), u.Txid, u.Offset) != k || u.Frozen == -1 || u.Frozen > h || u.Amount.Sign() == 0 {
+					continue
+				}
+				if tx, err := BuildTx(&TxSpec{From: owner, Version: 3, Inputs: []UtxoRef{u}, Outs: []OutSpec{{To: owner.Addr, Amount: u.Amount}}, NoChange: true}); err == nil {
+					out = append(out, tx)
+				}
+			}
+		}
+	}
+	return out
 }
